@@ -140,6 +140,9 @@ def get_crop_item_from_points(points, wcs, crop_by_values, keepdims, array_shape
     combined_points_array_idx = [[]] * wcs.pixel_n_dim
     # For each point compute the corresponding array indices.
     for point in points:
+        # A point with no coordinate at all does not constrain the region.
+        if all(coord is None for coord in point):
+            continue
         # Get the arrays axes associated with each element in point.
         if crop_by_values:
             point_inputs_array_axes = []
